@@ -183,5 +183,7 @@ def run(ctx):
     rep.check(r4, ok, 'proto::repl:handler-input=current-segment',
               'matcher state persists across segments: %s; handlers given only the current segment: %s; control-block fields that could buffer earlier bytes: %s' % (persists, [h.split("::")[-2] for h in cur_only], buffered), pr.loc(sn[0]) if sn else '')
     dispatch_sound(ctx, 'C11', 'a stream reaches the HTTP / RPC parser')
+    table_never_shrinks(ctx, 'C11')
+    no_abort_in(ctx, 'C11', r'proto::(http|rpc)::|proto::repl$|proto::tcb::', 'parsing HTTP / RPC streams')
 
 
